@@ -201,6 +201,26 @@ def _transpose_first_last(x, to_front):
     return build(list(x))
 
 
+def _transpose(x):
+    """numpy / backend transpose without axes: all axes reversed"""
+    sh = _shape(x)
+    if len(sh) <= 1:
+        return x
+
+    def get(idx):
+        y = x
+        for i in idx:
+            y = y[i]
+        return y
+
+    def rec(prefix, dims):
+        if not dims:
+            return get(tuple(reversed(prefix)))
+        return [rec(prefix + [i], dims[1:]) for i in range(dims[0])]
+
+    return rec([], list(reversed(sh)))
+
+
 def _einsum(a, k):
     spec = a[0]
     if not isinstance(spec, str):
@@ -410,6 +430,7 @@ def externals(interp_truth=None):
         "power": lambda a, k: arith("**", a[0], a[1]), "add": lambda a, k: arith("+", a[0], a[1]), "subtract": lambda a, k: arith("-", a[0], a[1]),
         "clip": lambda a, k: _map(lambda v: (to_poly(v) if (a[1] if len(a) > 1 else k.get("min_value")) is None else fn("max", to_poly(v), to_poly(a[1] if len(a) > 1 else k.get("min_value")))), a[0]),
         "ravel": lambda a, k: _flatten(a[0]),
+        "transpose": lambda a, k: _transpose(a[0]) if len(a) == 1 and not k else _not_handled(),
         "insert": lambda a, k: _insert(a[0], a[1], a[2]),
         "isfinite": lambda a, k: _map(lambda v: not any(n_ in ("INF", "NEGINF", "NAN", "DIVZERO") for n_ in _plain(to_poly(v))), a[0]),
         "boolean_mask": lambda a, k: [x for x, m_ in zip(a[0], a[1]) if (m_ if isinstance(m_, bool) else truth(m_))],
